@@ -139,6 +139,16 @@ def main():
                 ev["direct"] = sorted(x.qualified_name_without_version.split(":")[-1] for x in g.direct_memento_fn_dependencies())
                 df = g.df()
                 ev["edges"] = sorted([r["src"].split(":")[-1], r["target"].split(":")[-1]] for _, r in df.iterrows())
+            elif kind == "probe":
+                fn = getattr(mod, op["name"])
+                mem = fn.memento(1)
+                ev["memento"] = mem is not None
+                ev["invs"] = []
+                if mem is not None:
+                    for inv in mem.invocation_metadata.invocations:
+                        ev["invs"].append([inv.fn_reference.qualified_name, bool(inv.fn_reference.external)])
+                ev["nlisted"] = len(fn.list_mementos())
+                ev["functions"] = sorted(x.qualified_name for x in m.list_memoized_functions(fn.cluster_name))
             elif kind == "exec_def":
                 exec_in_module(mod, op["src"])
             elif kind == "setvar":
